@@ -28,13 +28,13 @@ OBLIGATIONS = [
 
 # proposals for /verif/known_findings.json (the integrator merges them); applied locally until they are listed there
 PROPOSED_FINDINGS = [
-    {"id": "C19-platform-build-default-list", "property": "C19", "status": "known",
+    {"id": "C19-platform-build-default-list", "property": "C19", "status": "fixed", "commit": "ba2b673",
      "anchor": "py4hw/external/platforms/intel.py:28",
      "class_expr": "r.get('via') == 'platform.build default createdStructures' and r.get('call_index', 0) >= 1",
      "witness": {"via": "platform.build default createdStructures", "platform": "C10LP", "call_index": 1,
                  "first_text_modules": 1, "second_text": ""},
-     "what": "C10LP/DE0/… .build(projectDir) declares createdStructures=[] as a mutable default and hands it to "
-             "getVerilogForHierarchy, which appends to it: every build() after the first one in a process writes an EMPTY Verilog file"},
+     "what": "fixed: property=C19 ba2b673 C10LP/DE0 .build(projectDir) declared createdStructures=[] as a mutable default and handed it "
+             "to getVerilogForHierarchy, which appends to it: every build() after the first one in a process wrote an EMPTY Verilog file"},
     {"id": "C19-live-arg-attr", "property": "C19", "status": "known",
      "anchor": "py4hw/transpilation/python2verilog_transpilation.py:756",
      "class_expr": "r.get('via') == 'constructor-argument attribute reassigned by clock()' and r.get('cycles_between', 0) >= 1",
@@ -49,7 +49,11 @@ PROPOSED_FINDINGS = [
 def fail_or_known(res, what, replay):
     listed = {k.get('id') for k in load_known()}
     for k in PROPOSED_FINDINGS:
-        if k['id'] not in listed and common_matches(k, what, replay):
+        if k.get('status') == 'fixed' and common_matches(k, what, replay):
+            # a repaired defect is back: a VIOLATION even while known_findings.json still carries a stale "known" entry
+            res.failures.append({'what': what + f' (recurrence of fixed finding {k["id"]}, {k.get("commit")})', 'replay': replay})
+            return
+        if k.get('status') == 'known' and k['id'] not in listed and common_matches(k, what, replay):
             res.known_hits.append((k, what))
             note = f"{k['id']} pending merge into known_findings.json; class predicate applied from harness/c19.py"
             if note not in res.notes:
@@ -636,38 +640,70 @@ def run_batch(res, scs):
 
 
 def witness_platform_build(res):
-    """known-finding witness: mutable default `createdStructures=[]` of the platform build() wrappers, handed to
-    getVerilogForHierarchy (which appends to it).  Reproduced WITHOUT running the vendor tool: the default list object of the
-    real function is passed exactly as build() passes it."""
-    import py4hw
-    try:
-        from py4hw.external.platforms import intel
-    except Exception as e:
-        res.hist('witness', f'platform import failed: {type(e).__name__}')
-        return
-    fn = intel.C10LP.build
-    dflt = (fn.__defaults__ or [None])[-1]
-    src = inspect.getsource(fn)
-    if not isinstance(dflt, list) or 'createdStructures=createdStructures' not in src.replace(' ', ''):
-        res.hist('witness', 'platform.build no longer has a shared default list (fixed)')
-        return
-    saved = list(dflt)
-    texts = []
-    try:
-        for k in range(2):
-            with L.quiet():
-                hw = intel.C10LP()
-                a, r = hw.wire('a', 4), hw.wire('r', 4)
-                py4hw.Not(hw, 'n', a, r)
-                rtl = py4hw.VerilogGenerator(hw)
-                texts.append(rtl.getVerilogForHierarchy(noInstanceNumberInTopEntity=True, createdStructures=dflt))
-    finally:
-        dflt[:] = saved
-    res.count(('witness', 'platform-build'))
-    if L.canon_text(texts[0], []) != L.canon_text(texts[1], []):
-        fail_or_known(res, f'second platform build() in one process generates {len(L.chunks(texts[1]))} modules instead of {len(L.chunks(texts[0]))}',
-                      dict(via='platform.build default createdStructures', platform='C10LP', call_index=1,
-                           first_text_modules=len(L.chunks(texts[0])), second_text=texts[1][:80]))
+    """regression test of the FIXED finding C19-platform-build-default-list (repaired in /repo by ba2b673): the former witness —
+    the real platform `build(projectDir)` called twice in one process — re-derived at every run.  The vendor back end
+    (edalize -> make -> quartus) is replaced by a stub for the duration of the call; everything before it (generator call,
+    file writing) is the real code.  The second Verilog file must equal the first; a recurrence is a VIOLATION (the entry
+    has status fixed and suppresses nothing)."""
+    import py4hw, tempfile, shutil, importlib
+
+    class _Backend:
+        def __init__(self, **kw):
+            pass
+
+        def configure(self):
+            pass
+
+        def build(self):
+            pass
+
+    class _Eda:
+        @staticmethod
+        def get_edatool(tool):
+            return _Backend
+    for modname, clsname in (('py4hw.external.platforms.intel', 'C10LP'), ('py4hw.external.platforms.terasic', 'DE0')):
+        try:
+            mod = importlib.import_module(modname)
+            cls = getattr(mod, clsname)
+        except Exception as e:
+            res.hist('witness', f'{clsname}: import failed: {type(e).__name__}')
+            continue
+        dflt = (cls.build.__defaults__ or (None,))[-1]
+        saved_default = list(dflt) if isinstance(dflt, list) else None
+        saved_eda = getattr(mod, 'edatool', None)
+        texts, err = [], None
+        try:
+            mod.edatool = _Eda
+            for k in range(2):
+                tmp = tempfile.mkdtemp(prefix='c19_build_')
+                try:
+                    with L.quiet():
+                        hw = cls()
+                        a, r = hw.wire('a', 4), hw.wire('r', 4)
+                        py4hw.Not(hw, 'n', a, r)
+                        hw.build(tmp)
+                    f = os.path.join(tmp, hw.name + '.v')
+                    texts.append(open(f).read() if os.path.exists(f) else None)
+                except Exception as e:
+                    err = f'{type(e).__name__}: {str(e)[:100]}'
+                    break
+                finally:
+                    shutil.rmtree(tmp, ignore_errors=True)
+        finally:
+            mod.edatool = saved_eda
+            if saved_default is not None:
+                dflt[:] = saved_default
+        if err is not None or len(texts) != 2 or texts[0] is None:
+            res.hist('witness', f'{clsname}: build() not runnable here ({err})')
+            continue
+        res.count(('witness', 'platform-build', clsname))
+        same = texts[1] is not None and L.canon_text(texts[0], []) == L.canon_text(texts[1], [])
+        res.hist('witness', f'{clsname}: second build() ' + ('equals the first' if same else 'DIFFERS'))
+        if not same:
+            fail_or_known(res, f'second {clsname}.build() in one process writes {len(L.chunks(texts[1] or ""))} modules instead of {len(L.chunks(texts[0]))}',
+                          dict(via='platform.build default createdStructures', platform=clsname, call_index=1,
+                               default_is_list=isinstance(dflt, list), first_text_modules=len(L.chunks(texts[0])),
+                               second_text=(texts[1] or '')[:80]))
 
 
 def witness_live_attr(res):
